@@ -230,7 +230,7 @@ def run(v, prop, tier, seed):
     """the ledger step of a property's check: quick = one random program; thorough = longer programs with several seeds
     and the repository's own test suite"""
     wd = workdir("ledger")
-    progs = [(seed, 2500)] if tier == "quick" else [(seed, 12000), (seed + 1, 12000), (seed + 2, 12000)]
+    progs = [(seed, 2500)] if tier == "quick" else [(seed, 8000), (seed + 1, 8000)]
     for s, n in progs:
         evs = record_driver(wd, s, n)
         validate(v, prop, evs, "driver%d" % s, wd)
